@@ -1436,6 +1436,45 @@ fn run_dangling(t: &mut Tally) -> Vec<(String, String, Value)> {
     out
 }
 
+/// Every ordered pair (old, new) of f32 bit patterns that compare specially as floats (the two
+/// zeros, NaNs with different payloads, infinities, denormals): the cell holds `old`, `new` is
+/// written positionally and through a stream, the cell must then hold exactly the bits of `new`
+/// (a write that is skipped "because the value is unchanged" compares floats, not bits).
+fn run_f32_pairs(t: &mut Tally) -> Vec<(String, String, Value)> {
+    let mut out = Vec::new();
+    let vals: [u32; 12] = [0x0000_0000, 0x8000_0000, 0x3F80_0000, 0xBF80_0000, 0x7FC0_0000, 0xFFC0_0001, 0x7FA0_0000, 0x7F80_0000, 0xFF80_0000, 0x0000_0001, 0x8000_0001, 0x7FC0_0001];
+    for e in [End::Little, End::Big] {
+        for &old in &vals {
+            for &new in &vals {
+                for stream in [false, true] {
+                    t.cases += 1;
+                    t.calls += 2;
+                    let r = util::catch(|| -> Result<u32, String> {
+                        let mut a = BinArchive::new(arch::endian(e));
+                        a.allocate_at_end(8);
+                        a.write_f32(4, f32::from_bits(old)).map_err(|x| x.to_string())?;
+                        if stream {
+                            let mut w = mila::BinArchiveWriter::new(&mut a, 4);
+                            w.write_f32(f32::from_bits(new)).map_err(|x| x.to_string())?;
+                        } else {
+                            a.write_f32(4, f32::from_bits(new)).map_err(|x| x.to_string())?;
+                        }
+                        a.read_u32(4).map_err(|x| x.to_string())
+                    });
+                    let cj = json!({"part": "f32-pairs", "endian": format!("{:?}", e), "old": old, "new": new, "stream": stream});
+                    match r {
+                        Err(p) => out.push((format!("panic@{}:f32-pairs", p.location), format!("write_f32 of bits {:#010x} over {:#010x} panicked: {}", new, old, p.message), cj)),
+                        Ok(Err(x)) => out.push(("f32-pairs:rejected".into(), format!("in-range write_f32 of bits {:#010x} over {:#010x} failed: {}", new, old, x), cj)),
+                        Ok(Ok(got)) if got != new => out.push((format!("f32-pairs:{}", if stream { "stream-write" } else { "positional-write" }), format!("{} write_f32 of bits {:#010x} over a cell holding {:#010x} ({:?}) left {:#010x} in the cell", if stream { "stream" } else { "positional" }, new, old, e, got), cj)),
+                        Ok(Ok(_)) => t.nontrivial += 1,
+                    }
+                }
+            }
+        }
+    }
+    out
+}
+
 /// stream read_bytes / positional read_bytes with counts around 2^16, 2^20 and 2^24 on a 17 MiB archive
 fn run_huge_counts(t: &mut Tally) -> Vec<(String, String, Value)> {
     let mut out = Vec::new();
@@ -1506,6 +1545,9 @@ fn explore(ctx: &Ctx) -> Outcome {
             t.violate(sig, summary, case);
         }
         for (sig, summary, case) in run_dangling(&mut t) {
+            t.violate(sig, summary, case);
+        }
+        for (sig, summary, case) in run_f32_pairs(&mut t) {
             t.violate(sig, summary, case);
         }
         total.absorb(t);
@@ -1584,6 +1626,10 @@ fn replay(_ctx: &Ctx, case: &Value) -> Vec<Violation> {
         let seq: Vec<Sop> = case["seq"].as_array().map(|a| a.iter().map(|i| SOPS[i.as_u64().unwrap_or(0) as usize % SOPS.len()]).collect()).unwrap_or_default();
         let mut t = Tally::new();
         return two_reader_case(200, e, start, &seq, &mut t).map(|(sig, summary)| vec![Violation { sig, summary, case: case.clone() }]).unwrap_or_default();
+    }
+    if case["part"] == "f32-pairs" {
+        let mut t = Tally::new();
+        return run_f32_pairs(&mut t).into_iter().filter(|(_, _, c)| c == case).map(|(sig, summary, c)| Violation { sig, summary, case: c }).collect();
     }
     if case["part"] == "dangling" {
         let mut t = Tally::new();
